@@ -219,4 +219,8 @@ static int uid_free (void *p) {
  */
 void deinit_uids(void) {
   tree_mung(&uids, uid_free);
+  /* both records were in the tree and are freed now: the next master must get new ones
+   * from set_root_uid() / set_backbone_uid(), not have the freed ones renamed. */
+  root_uid = NULL;
+  backbone_uid = NULL;
 }
